@@ -210,7 +210,7 @@ func runSequence(t *testing.T, plan Plan, gen func(w *World) Generator, mkOracle
 				harnessPanic = r
 			}
 		}()
-		synctest.Test(t, func(t *testing.T) {
+		bubble(t, func(t *testing.T) {
 			defer func() {
 				if r := recover(); r != nil {
 					harnessPanic = fmt.Sprintf("%v\n%s", r, debug.Stack())
@@ -387,4 +387,22 @@ func shrink(plan Plan, sig string, exec func(Plan) *RunResult, budget int) (Plan
 		}
 	}
 	return best, bestRes
+}
+
+// bubble runs f in a synctest bubble. synctest.Test ends the calling goroutine
+// (FailNow) when the bubble's test is marked failed - which the race detector
+// does on its own when it reports something - so it is given a goroutine of
+// its own and the caller carries on with the remaining runs.
+func bubble(t *testing.T, f func(t *testing.T)) {
+	done := make(chan struct{})
+	var pv interface{}
+	go func() {
+		defer close(done)
+		defer func() { pv = recover() }()
+		synctest.Test(t, f)
+	}()
+	<-done
+	if pv != nil {
+		panic(pv)
+	}
 }
